@@ -520,14 +520,52 @@ def _iter_component(it: Term, path: tuple[int, ...], loopid) -> Term:
 
 
 # ------------------------------------------------------------------ queries
+def children(t: Term) -> list:
+    """Direct sub-terms of a term (structure aware: keyword names, operator
+    strings, loop ids etc. are not terms)."""
+    k = t[0]
+    if k in ("const", "param", "global", "builtin", "func", "unknown", "unbound", "deep", "rec", "exc", "root"):
+        return []
+    if k in ("attr", "iter", "enumidx", "item", "enter", "star"):
+        return [t[1]]
+    if k == "call":
+        return [t[1]] + list(t[2]) + [v for _n, v in t[3]]
+    if k in ("binop", "aug", "cmp"):
+        return [t[2], t[3]]
+    if k == "unary":
+        return [t[2]]
+    if k in ("bool",):
+        return list(t[2])
+    if k == "sub":
+        return [t[1], t[2]]
+    if k in ("slice", "ifexp"):
+        return list(t[1:4])
+    if k in ("tuple", "list", "set", "phi", "fstr"):
+        return list(t[1])
+    if k == "dict":
+        return [x for pair in t[1] for x in pair]
+    if k == "update":
+        return [t[1], t[2], t[3], t[4]]
+    if k == "setattr":
+        return [t[1], t[2], t[4]]
+    if k == "mut":
+        return [t[1], t[3]]
+    if k == "comp":
+        out = [t[2]]
+        for _names, it, conds in t[3]:
+            out.append(it)
+            out.extend(conds)
+        return out
+    return []
+
+
 def subterms(t) -> Iterator[Term]:
     stack = [t]
     while stack:
         x = stack.pop()
-        if isinstance(x, tuple):
-            if x and isinstance(x[0], str):
-                yield x
-            stack.extend(y for y in x if isinstance(y, tuple))
+        if isinstance(x, tuple) and x and isinstance(x[0], str):
+            yield x
+            stack.extend(children(x))
 
 
 def find(t: Term, pred: Callable[[Term], bool]) -> list[Term]:
